@@ -1,15 +1,19 @@
 # edge: fiber.ev_state.read.buf
 # the buffer allocated by ev/read is owned only by the pending read state; the waiting fiber only by the stream
 (def [r w] (os/pipe))
-(ev/go (fn [] (def b (ev/read r 5)) (print (string b)) (def b2 (ev/read r 100)) (print (string b2))))
+(def done (ev/chan))
+(ev/go (fn []
+         (def b (ev/read r 5)) (print (string b)) (ev/give done 1)
+         (def b2 (ev/read r 100)) (print (string b2)) (ev/give done 2)))
 (ev/sleep 0)
 (gccollect)
 (def junk (seq [i :range [0 50]] @[i i]))
 (ev/write w "hello")
-(ev/sleep 0.01)
+(ev/take done)
+(ev/sleep 0)
 (gccollect)
 (ev/write w "world")
-(ev/sleep 0.01)
+(ev/take done)
 (ev/close w)
 (ev/close r)
 (print "done")
